@@ -114,6 +114,12 @@ def emptyTail (r : Bytes) : Bool :=
   let r := match r with | 63 :: t => t.dropWhile (· = 38) | t => t
   r = [] || r = [35]
 
+/-- the identifier alphabet `did.ParseDID` guarantees: `(idchar | %HH)*` -/
+def idOK : Bytes → Bool
+  | [] => true
+  | 37 :: a :: b :: rest => isHex a && isHex b && idOK rest
+  | c :: rest => isIdChar c && idOK rest
+
 /-- `did.ParseDID` -/
 def parseDID (s : Bytes) : Res DID :=
   if !hasPrefix sDid s then .err "invalid-did" else
@@ -166,5 +172,34 @@ def urlToDID (enc : List Nat) (u : URL) : Res DID :=
   let parts := ((splitOn cSlash path).filter (· ≠ [])).map (percentEncode enc)
   let str := sDidWeb ++ percentEncode enc u.host ++ (if parts = [] then [] else cColon :: joinWith cColon parts)
   parseDID str
+
+/-! ### the round-trip grammar (decidable): `did:web:` name [`%3A` digits] (`:` segment)* -/
+
+/-- `[A-Za-z0-9._-]` -/
+def isNameChar (c : Nat) : Bool := isAlnum c || c = 46 || c = 45 || c = 95
+def isUpperHex (c : Nat) : Bool := isDigit c || (65 ≤ c && c ≤ 70)
+
+/-- a path segment: name characters and upper-case escapes `%XX` of the reserved characters in `set` -/
+def wfSeg (set : List Nat) : Bytes → Bool
+  | [] => true
+  | 37 :: a :: b :: rest => isUpperHex a && isUpperHex b && set.contains (unhex a * 16 + unhex b) && wfSeg set rest
+  | c :: rest => isNameChar c && wfSeg set rest
+
+def sPct3A : Bytes := [37, 51, 65]                                    -- "%3A"
+def sDidJsonSeg : Bytes := [100, 105, 100, 46, 106, 115, 111, 110]    -- "did.json"
+
+/-- host component: a domain name that is not an IPv4 address, optionally followed by `%3A` and a decimal port -/
+def wfHost (h : Bytes) : Bool :=
+  let name := h.takeWhile isNameChar
+  let tl := h.dropWhile isNameChar
+  name ≠ [] && !isIPv4 name && (tl = [] || (hasPrefix sPct3A tl && (tl.drop 3).all isDigit))
+
+/-- the identifiers for which `URLToDID (DIDToURL d) = d` is claimed: method web; host component as above; every
+    further component a non-empty segment; the last one not `did.json` (a URL ending in /did.json denotes its parent) -/
+def wfDID (set : List Nat) (d : DID) : Bool :=
+  d.method = sWeb &&
+  match splitOn cColon d.id with
+  | h :: segs => wfHost h && segs.all (fun s => s ≠ [] && wfSeg set s) && segs.getLast? ≠ some sDidJsonSeg
+  | [] => false
 
 end Nuts.C18
